@@ -34,6 +34,8 @@ def child_main(job, w, world):
                 res = world.run_history(job)
             elif job["kind"] == "ref":
                 res = world.run_reference(job)
+            elif job["kind"] == "refs":
+                res = world.run_references(job)
             elif job["kind"] == "ping":
                 res = {"pong": True}
             else:
